@@ -78,8 +78,8 @@ func init() {
 // C06: the write monitor — no write modifies a page of a visible committed state.
 func C06(tier string) int {
 	return RunHX(HXCheck{
-		Prop: "C06", Level: "model_checking", Scopes: []string{"c06-life", "c06-bigfree", "c06-nested"},
-		Rule:        "breadth-first enumeration of all programs within the bound (writers with page-freeing bodies, readers of every age opening/closing before, between and during write transactions, rollbacks, reopen with the other freelist backend / sync setting, nested bucket delete/move); every WriteAt issued to the data file is checked at the moment it is issued against the page sets (tree, overflow, freelist pages as decoded by boltfmt when that version was committed) of the newest committed state and of every open reader's state, and against the meta-slot rule; a state is a distinct exact state key",
+		Prop: "C06", Level: "model_checking", Scopes: []string{"c06-life", "c06-bigfree", "c06-fault", "c06-nested"},
+		Rule:        "breadth-first enumeration of all programs within the bound (writers with page-freeing bodies, readers of every age opening/closing before, between and during write transactions, rollbacks, failed commits (scope c06-fault: every single I/O failure of every commit) and what follows them, reopen with the other freelist backend / sync setting, nested bucket delete/move, a free list spanning several pages); every WriteAt issued to the data file is checked at the moment it is issued against the page sets (tree, overflow, freelist pages as decoded by boltfmt when that version was committed) of the newest committed state and of every open reader's state, and against the meta-slot rule; a state is a distinct exact state key",
 		Assumptions: []string{"page sets come from the independent decoder at commit time", "a write that leaves every byte of a protected page unchanged is counted, not flagged"},
 		Quick:       100 * time.Second, Thorough: 25 * time.Minute,
 	}, tier)
